@@ -160,6 +160,7 @@ def run(ctx):
         _callban(ctx, cfg, prog, mod)
         _finite(ctx, cfg, prog, mod)
         _assertgate(ctx, cfg, prog, mod)
+        _rngrange(ctx, cfg, prog, mod)
     return ctx.finish(EXPLANATION)
 
 
@@ -678,6 +679,109 @@ def _callban(ctx, cfg, prog, mod):
                site='%s:%d' % (file, line))
     ctx.ob('CALLBAN', 'slotmap-index', cfg, not bad, 'call sites scanned: %d; keyed slot-map Index/IndexMut: %d' % (n, len(bad)))
 
+
+
+# ------------------------------------------------------------------------------------------ RNGRANGE
+RNG_SAMPLERS = ('random_range', 'gen_range', 'sample_single', 'sample_single_inclusive')
+WIDTH_OPS = ('sub', 'add', 'mul', 'abs_sub')
+
+
+def _rngrange(ctx, cfg, prog, mod):
+    """RNGRANGE: rand's range samplers panic (they unwrap `Error::NonFinite` / `EmptyRange`) when `high - low` is not
+    finite, which happens for *finite* bounds of extreme magnitude (-1.5e308 .. 1.5e308).  For every library function
+    that samples from a range built from its own arguments: every path from entry to the sampling (the call, or the
+    creation of the closure that makes it) passes the true edge of an `is_finite` test of a *computed width* (the
+    tested value is produced by an arithmetic operation).  A range whose lower bound is the constant zero needs no test
+    (its width is the upper bound).  Decided per root function; ranges made of constants only are not judged."""
+    ctx.rule('RNGRANGE', 'range samplers are reached only behind a finiteness test of the range width')
+    import valueflow
+    per_root = {}
+    for q, b in sorted(prog.bodies.items()):
+        if '::tests::' in q or not b.file.startswith('src/'):
+            continue
+        for bb, t in b.calls():
+            if (t.callee or t.resolved or '').rsplit('::', 1)[-1] in RNG_SAMPLERS and not b.blocks[bb].cleanup:
+                per_root.setdefault(b.root or q, []).append((q, bb, t))
+    n_roots = 0
+    for root, sites in sorted(per_root.items()):
+        rb = prog.bodies.get(root)
+        if rb is None:
+            continue
+        al = mod.aliases(root)
+        # does any range operand depend on the function's inputs?  (leaves of the Range value in its own body)
+        var = False
+        zero_start = True
+        for (q, bb, t) in sites:
+            b = prog.bodies[q]
+            alq = mod.aliases(q)
+            for o in t.args[1:]:
+                if o.place is None:
+                    continue
+                lv_ = valueflow.sources(b, alq, o.place.local)
+                if any(x[0] in ('param', 'place') for x in lv_):
+                    var = True
+                # the start of the range: a `zero()` call among the sources and exactly one input leaf
+                calls = {(x[1].callee or x[1].resolved or '').rsplit('::', 1)[-1] for x in lv_ if x[0] == 'call'}
+                if 'zero' not in calls:
+                    zero_start = False
+        if not var:
+            continue
+        n_roots += 1
+        if zero_start:
+            # `zero()..bound`: the width is the bound itself, finite whenever the caller's value is (the property
+            # quantifies over finite input); emptiness (bound <= 0) is an EmptyRange question decided by nobody here
+            ctx.ob('RNGRANGE', root, cfg, True, '%d range sampler call(s) on a zero-based range: width = upper bound, finite '
+                   'for finite input' % len(sites), site='%s:%d' % (rb.file, rb.line))
+            continue
+        # blocks of the root in which sampling becomes possible
+        use = set()
+        for (q, bb, t) in sites:
+            if q == root:
+                use.add(bb)
+                continue
+            cq = q
+            while prog.bodies[cq].parent not in (None, root) and prog.bodies[cq].parent in prog.bodies:
+                cq = prog.bodies[cq].parent
+            for blk in rb.blocks:
+                for s_ in blk.stmts:
+                    if s_.kind == 'A' and s_.rv.k == 'agg' and s_.rv.raw.get('ak') == 'closure' and s_.rv.raw.get('def') == cq:
+                        use.add(blk.idx)
+                t_ = blk.term
+                if t_.k == 'call':
+                    for o in t_.args:
+                        if o.kind == 'k' and o.const and o.const.get('closure') == cq:
+                            use.add(blk.idx)
+        site = '%s:%d' % (rb.file, rb.line)
+        if not use:
+            ctx.ob('RNGRANGE', root, cfg, False, 'sampling closure is not created in the root function (unrecognised shape)', site=site)
+            continue
+        gates = set()
+        weak = []
+        for bb, t in rb.calls():
+            if (t.callee or t.resolved or '').rsplit('::', 1)[-1] != 'is_finite' or not t.args or t.args[0].place is None:
+                continue
+            lv_ = valueflow.sources(rb, al, t.args[0].place.local)
+            calls = {(x[1].callee or x[1].resolved or '').rsplit('::', 1)[-1] for x in lv_ if x[0] == 'call'} - {'is_finite'}
+            computed = bool(calls & set(WIDTH_OPS))
+            if computed:
+                gates |= flow.call_flow(rb, bb).ok_edges
+            else:
+                weak.append(t.line)
+        # a validation loop over the components (`for period in domain { if .. !period.is_finite() { return Err } }`):
+        # its iterator-exhausted edge is a passing edge when no iteration completes without the finite edge
+        import gate as _gate
+        gblocks = {bb_ for (bb_, _d) in gates}
+        gates |= _gate._checked_loop_exhaustion_edges(rb, flow.all_call_flows(rb), gblocks, gates)
+        reach = flow.reach_edges(rb, [0], avoid_edges=gates)
+        bad = sorted(use & reach)
+        ctx.ob('RNGRANGE', root, cfg, not bad,
+               '%d range sampler call(s); %d finite-width edge(s)%s; sampling %s' % (
+                   len(sites), len(gates),
+                   (' (is_finite on a bare bound at line(s) %s does not bound the width high - low)' % weak) if weak else '',
+                   'only behind them' if not bad else
+                   'reachable without a finiteness test of the width: for finite bounds of extreme magnitude (high - low '
+                   'overflows) rand unwraps Error::NonFinite and panics'), site=site)
+    ctx.floor('functions sampling from a caller-supplied range', 1, n_roots, cfg)
 
 # ------------------------------------------------------------------------------------------ ASSERTGATE
 def _assertgate(ctx, cfg, prog, mod):
